@@ -31,6 +31,8 @@ def test_ext():
     for name, (i, o) in sigs.items():
         e.add_op_def(ext.OpDef(name=name, description=f"{name} test op",
                                signature=ext.OpDefSig(tys.FunctionType(list(i), list(o)))))
+    # an operation whose signature is computed ("binary"): its type arguments are all it carries
+    e.add_op_def(ext.OpDef(name="BinOp", description="computed signature", signature=ext.OpDefSig(None, binary=True)))
     e.add_type_def(ext.TypeDef(name="Lin", description="linear", params=[],
                                bound=ext.ExplicitBound(tys.TypeBound.Any)))
     e.add_type_def(ext.TypeDef(name="Box", description="box", params=[tys.TypeTypeParam(tys.TypeBound.Any)],
